@@ -2168,6 +2168,17 @@ class sptensor:
             for dim, value in enumerate(item):
                 if isinstance(value, (int, np.integer)) and value < 0:
                     value = self.shape[dim] + value  # noqa: PLW2901
+                elif (
+                    isinstance(value, (list, np.ndarray))
+                    and len(value) > 0
+                    and np.min(value) < 0
+                ):
+                    # Entries of an index list counted from the end
+                    value = np.where(  # noqa: PLW2901
+                        np.asarray(value) < 0,
+                        np.asarray(value) + self.shape[dim],
+                        np.asarray(value),
+                    ).tolist()
                 region.append(value)
 
             # Pare down the list of subscripts (and values) to only
@@ -2364,8 +2375,23 @@ class sptensor:
         if access_type == IndexVariant.SUBTENSOR:
             updated_key = []
             for dim, entry in enumerate(key):
-                if isinstance(entry, (int, np.integer)) and entry < 0:
-                    entry = self.shape[dim] + entry  # noqa: PLW2901
+                if isinstance(entry, (int, np.integer)):
+                    # Plain integer positions (numpy integers included)
+                    entry = int(entry)  # noqa: PLW2901
+                    if entry < 0:
+                        entry = self.shape[dim] + entry  # noqa: PLW2901
+                elif (
+                    isinstance(entry, (list, np.ndarray))
+                    and dim < self.ndims
+                    and len(entry) > 0
+                    and np.min(entry) < 0
+                ):
+                    # Entries of an index list counted from the end
+                    entry = np.where(  # noqa: PLW2901
+                        np.asarray(entry) < 0,
+                        np.asarray(entry) + self.shape[dim],
+                        np.asarray(entry),
+                    ).tolist()
                 elif isinstance(entry, slice) and dim < self.ndims:
                     # Slice bounds counted from the end refer to the current extent
                     start, stop = entry.start, entry.stop
